@@ -95,16 +95,18 @@ func (r *rwRT) ruleMutGuard() {
 				continue
 			}
 			var vals []AV
+			direct := map[*ssa.Function]bool{}
 			for _, a := range e.Args {
 				if cl, ok := a.(Closure); ok {
 					vals = append(vals, cl)
+					direct[cl.Fn] = true
 				}
 			}
 			vals = append(vals, e.BoundVals...)
 			for _, v := range vals {
 				cl := v.(Closure)
-				if cl.Fn == nil || !inRw(cl.Fn) || outermost(cl.Fn) == rf || seenCb[cl.Fn] {
-					continue // the forwarding closure of rewriteFile itself is not a pass
+				if cl.Fn == nil || !inRw(cl.Fn) || (outermost(cl.Fn) == rf && direct[cl.Fn]) || seenCb[cl.Fn] {
+					continue // the forwarding closure of rewriteFile itself is not a pass (a literal it forwards to is)
 				}
 				seenCb[cl.Fn] = true
 				cbs = append(cbs, cbVal{cl, o.St})
@@ -133,41 +135,67 @@ func (r *rwRT) ruleMutGuard() {
 		bad := ""
 		edits := 0
 		for _, kind := range nodeKinds {
-			in := r.interp(rwConfig{root: fn, boundaries: map[string]bool{"rewriteYieldFunc": true, "rewriteForRange": true, "rewriteYieldFrom": true}})
-			in.Fields["r.rewriter.coImportedName"] = mkString("co")
-			node := r.node(kind, "n")
-			in.OnCall = wrapOnCall(in.OnCall, func(cc *CallCtx) []Answer {
-				if cc.Fn != nil && cc.Fn.Name() == "Node" && cc.Fn.Signature.Recv() != nil && strings.Contains(cc.Fn.Signature.Recv().Type().String(), "astutil.Cursor") {
-					return []Answer{{Ret: []AV{node}, NoEvent: true}}
+			firstBad := ""
+			// a helper that asks the predicate itself (and answers nil for "not one of mine") is seen only when
+			// it is evaluated with the callback: an unguarded edit behind a helper call is judged again, inlined
+			for _, inlineHelpers := range []bool{false, true} {
+				kindBad, kindEdits, viaHelper := "", 0, false
+				in := r.interp(rwConfig{root: fn, boundaries: map[string]bool{"rewriteYieldFunc": !inlineHelpers, "rewriteForRange": !inlineHelpers, "rewriteYieldFrom": !inlineHelpers}})
+				if inlineHelpers {
+					in.MaxDepth = 12
 				}
-				return nil
-			})
-			in.Fields["runningWithGoTest"] = mkBool(false)
-			base := cb.st.clone()
-			mark := len(base.Events)
-			nl := len(base.Labels)
-			outs := in.Apply(base, cb.val, []AV{Sym{Name: "cursor", NN: true}, Sym{Name: "pkg", NN: true}})
-			r.account(in)
-			for _, o := range outs {
-				if o.Panicked {
-					continue
-				}
-				es := cursorEdits(o.St, mark)
-				if len(es) == 0 {
-					continue
-				}
-				edits++
-				ok := false
-				for _, l := range o.St.Labels[nl:] {
-					for _, p := range apiPredicates {
-						if strings.HasPrefix(l, p+"(") && strings.HasSuffix(l, "=true") {
-							ok = true
+				in.Fields["r.rewriter.coImportedName"] = mkString("co")
+				node := r.node(kind, "n")
+				in.OnCall = wrapOnCall(in.OnCall, func(cc *CallCtx) []Answer {
+					if cc.Fn != nil && cc.Fn.Name() == "Node" && cc.Fn.Signature.Recv() != nil && strings.Contains(cc.Fn.Signature.Recv().Type().String(), "astutil.Cursor") {
+						return []Answer{{Ret: []AV{node}, NoEvent: true}}
+					}
+					return nil
+				})
+				in.Fields["runningWithGoTest"] = mkBool(false)
+				base := cb.st.clone()
+				mark := len(base.Events)
+				nl := len(base.Labels)
+				outs := in.Apply(base, cb.val, []AV{Sym{Name: "cursor", NN: true}, Sym{Name: "pkg", NN: true}})
+				r.account(in)
+				for _, o := range outs {
+					if o.Panicked {
+						continue
+					}
+					es := cursorEdits(o.St, mark)
+					if len(es) == 0 {
+						continue
+					}
+					kindEdits++
+					ok := false
+					for _, l := range o.St.Labels[nl:] {
+						for _, p := range apiPredicates {
+							if strings.HasPrefix(l, p+"(") && strings.HasSuffix(l, "=true") {
+								ok = true
+							}
+						}
+					}
+					if !ok {
+						kindBad = fmt.Sprintf("on a %s node the callback edits the tree (%s) on a path where no API-membership predicate answered true: %s", kind, es[0].Fn.Name(), pathSummary(o))
+						for _, e := range o.St.Events[mark:] {
+							if e.Kind == "call" && e.Fn != nil && inRw(e.Fn) && (e.Fn.Name() == "rewriteYieldFunc" || e.Fn.Name() == "rewriteForRange" || e.Fn.Name() == "rewriteYieldFrom") {
+								viaHelper = true
+							}
 						}
 					}
 				}
-				if !ok {
-					bad = fmt.Sprintf("on a %s node the callback edits the tree (%s) on a path where no API-membership predicate answered true: %s", kind, es[0].Fn.Name(), pathSummary(o))
+				if kindBad != "" && viaHelper && !inlineHelpers {
+					firstBad = kindBad
+					continue // judged again with the helpers inlined
 				}
+				if inlineHelpers && kindEdits == 0 {
+					kindBad, kindEdits = firstBad, 1 // the inlined evaluation reached no edit at all: the first verdict stands
+				}
+				edits += kindEdits
+				if kindBad != "" {
+					bad = kindBad
+				}
+				break
 			}
 		}
 		name := strings.TrimSuffix(relName(fn), "$bound")
